@@ -37,6 +37,9 @@ type subreader struct {
 	lines []string
 	// parent is the parent reader, used for pos reporting during includes.
 	parent *subreader
+	// includedAt is the line in parent where the include clause that
+	// opened this reader starts.
+	includedAt int
 }
 
 func newReader(ctx context.Context, file string, includePath []string) (*reader, error) {
@@ -164,8 +167,8 @@ func (p *pos) wrapErr(err error) error {
 		var buf bytes.Buffer
 		buf.WriteString("in file included from:\n")
 		comma := ""
-		for r := p.r.parent; r != nil; r = r.parent {
-			fmt.Fprintf(&buf, "%s%s:%d <- here", comma, r.file, r.lineno)
+		for r := p.r; r.parent != nil; r = r.parent {
+			fmt.Fprintf(&buf, "%s%s:%d <- here", comma, r.parent.file, r.includedAt)
 			comma = "\n"
 		}
 		err = errors.WithDetail(err, buf.String())
@@ -248,6 +251,7 @@ func (r *subreader) readLine(
 			return "", pos{}, true, false, startPos.wrapErr(err)
 		}
 		sr.parent = pr.readers[len(pr.readers)-1]
+		sr.includedAt = startPos.lineno
 		pr.readers = append(pr.readers, sr)
 		if diff != "" {
 			pr.diffs[sr.file] = diff
